@@ -7,7 +7,8 @@
 (* an operation is one atomic step.)                                       *)
 (*                                                                         *)
 (*   CreateSub : lookup topic ; MgrInsertSub ; TopicAttach                  *)
-(*   DeleteSub : lookup ; SubDeleteBegin ; TopicRemove ; MgrRemoveSub+End   *)
+(*   DeleteSub : lookup ; SubDeleteBegin ; TopicRemove ; MgrRemoveSub+End ; *)
+(*               registry removal (by name; before or after MgrRemoveSub)  *)
 (*   Publish   : lookup ; TopicAccept ; (SubPost per attached subscription, *)
 (*               by the subscription actors, in mailbox order)             *)
 (*   Pull/Ack  : lookup ; SubPull / SubAck                                  *)
@@ -26,7 +27,8 @@ CONSTANTS
     Op,         \* Procs -> [op, name / topic / sub, ...]
     AtomicCreate,   \* TRUE: insert and attach of CreateSub are one step (a design WITHOUT the race)
     AtomicDelete,   \* TRUE: begin / remove / end of DeleteSub are one step
-    AttachChecksDeleting    \* TRUE: the topic refuses to attach a subscription that started being deleted
+    AttachChecksDeleting,   \* TRUE: the topic refuses to attach a subscription that started being deleted
+    UnregisterFirst         \* TRUE: a deletion leaves the push registry BEFORE it leaves the manager's map
 
 VARIABLES
     pc,         \* Procs -> program counter
@@ -37,6 +39,8 @@ vars == <<coreVars, pc, h>>
 NewTi == Len(torder) + 2
 NewSi == Len(sorder) + 2
 D == EffDeadline(0)
+OpPush(p) == IF "push" \in DOMAIN Op[p] THEN Op[p].push ELSE ""
+Unreg(name) == IF name \in DOMAIN reg THEN Without(reg, name) ELSE reg
 
 Init ==
     /\ CoreInit
@@ -80,14 +84,17 @@ StepCreateSub(p) ==
           /\ IF Op[p].name \in DOMAIN smap
              THEN SetPc(p, "done") /\ UNCHANGED <<coreVars, h>>
              ELSE /\ smap' = Put(smap, Op[p].name, NewSi)
-                  /\ S' = Put(S, NewSi, NewSub(Op[p].name, h[p].t, D, ""))
+                  /\ S' = Put(S, NewSi, NewSub(Op[p].name, h[p].t, D, OpPush(p)))
                   /\ sorder' = Append(sorder, NewSi)
                   /\ h' = [h EXCEPT ![p].s = NewSi]
                   /\ IF AtomicCreate
                      THEN /\ T' = [T EXCEPT ![h[p].t].att = PutIfAbsent(@, Op[p].name, NewSi)]
                           /\ SetPc(p, "done")
                      ELSE UNCHANGED T /\ SetPc(p, "attach")
-                  /\ UNCHANGED <<now, tmap, torder, reg, pubs>>
+                  \* the actor is started under the manager's lock and registers its push endpoint
+                  \* (an existing entry for that name is KEPT: or_insert)
+                  /\ reg' = IF OpPush(p) # "" THEN PutIfAbsent(reg, Op[p].name, OpPush(p)) ELSE reg
+                  /\ UNCHANGED <<now, tmap, torder, pubs>>
        \/ /\ pc[p] = "attach"
           /\ T' = IF AttachChecksDeleting /\ S[h[p].s].st # "live" THEN T
                   ELSE [T EXCEPT ![h[p].t].att = PutIfAbsent(@, Op[p].name, h[p].s)]
@@ -109,19 +116,27 @@ StepDeleteSub(p) ==
              THEN /\ S' = [S EXCEPT ![si].st = "deleted", ![si].queue = <<>>, ![si].lease = Empty]
                   /\ T' = [T EXCEPT ![S[si].topic].att = IF S[si].name \in DOMAIN @ THEN Without(@, S[si].name) ELSE @]
                   /\ smap' = IF S[si].name \in DOMAIN smap /\ smap[S[si].name] = si THEN Without(smap, S[si].name) ELSE smap
-                  /\ UNCHANGED <<now, tmap, torder, sorder, reg, pubs, h>> /\ SetPc(p, "done")
+                  /\ reg' = Unreg(S[si].name)
+                  /\ UNCHANGED <<now, tmap, torder, sorder, pubs, h>> /\ SetPc(p, "done")
              ELSE /\ S' = [S EXCEPT ![si].st = "deleting"]
                   /\ UNCHANGED <<now, tmap, smap, T, torder, sorder, reg, pubs, h>> /\ SetPc(p, "remove")
        \/ /\ pc[p] = "remove"
           /\ LET si == h[p].s IN
              \* removal from the topic's list is BY NAME
              T' = [T EXCEPT ![S[si].topic].att = IF S[si].name \in DOMAIN @ THEN Without(@, S[si].name) ELSE @]
-          /\ UNCHANGED <<now, tmap, smap, S, torder, sorder, reg, pubs, h>> /\ SetPc(p, "end")
+          /\ UNCHANGED <<now, tmap, smap, S, torder, sorder, reg, pubs, h>>
+          /\ SetPc(p, IF UnregisterFirst THEN "unreg" ELSE "end")
        \/ /\ pc[p] = "end"
           /\ LET si == h[p].s IN
              /\ smap' = IF S[si].name \in DOMAIN smap THEN Without(smap, S[si].name) ELSE smap   \* BY NAME
              /\ S' = [S EXCEPT ![si].st = "deleted", ![si].queue = <<>>, ![si].lease = Empty]
-          /\ UNCHANGED <<now, tmap, T, torder, sorder, reg, pubs, h>> /\ SetPc(p, "done")
+          /\ UNCHANGED <<now, tmap, T, torder, sorder, reg, pubs, h>>
+          /\ SetPc(p, IF UnregisterFirst THEN "done" ELSE "unreg")
+       \/ /\ pc[p] = "unreg"
+          \* the push registry forgets the NAME (whichever incarnation registered it)
+          /\ reg' = Unreg(S[h[p].s].name)
+          /\ UNCHANGED <<now, tmap, smap, T, S, torder, sorder, pubs, h>>
+          /\ SetPc(p, IF UnregisterFirst THEN "end" ELSE "done")
 
 StepPublish(p) ==
     /\ Op[p].op = "Publish"
@@ -193,6 +208,9 @@ InvNoDeadAttached ==
 \* C10: the name maps only bind live incarnations at rest.
 InvMapsLive ==
     AtRest => \A n \in DOMAIN smap : S[smap[n]].st = "live"
+
+\* C14: at rest the push registry lists exactly the live subscriptions that have a push endpoint.
+InvRegistry == AtRest => C14_RegistryExact
 
 \* C01: at rest, every message a live subscription's topic accepted while the subscription was in
 \* its fan-out has been posted to it (nothing accepted is lost on the way).
